@@ -43,7 +43,8 @@ TreeDiff(E, O) ==
 Fail(step, clause, d) == [step |-> step, clause |-> clause, missing |-> d.missing, extra |-> d.extra, changed |-> d.changed, owners |-> <<>>]
 \* which rule owns the files/links named in a difference (for the report)
 Owners(o, sel, ps) ==
-    SetSeq(UNION { { [p |-> y.p, id |-> it.id] : y \in { z \in Leaves(o, it) : z.p \in ps } } : it \in sel })
+    SetSeq(UNION { { [p |-> y.p, id |-> it.id] : y \in { z \in Leaves(o, it) : z.p \in ps } }
+                   \cup { [p |-> f.p, id |-> it.id] : f \in { z \in ForcedDirs(o, it) : z.p \in ps } } : it \in sel })
 DiffPaths(d) == Rng(d.missing) \cup { ch.p : ch \in Rng(d.changed) }
 NoDiff == [missing |-> <<>>, extra |-> <<>>, changed |-> <<>>]
 SetDiff(E, O) == [missing |-> SetSeq(E \ O), extra |-> SetSeq(O \ E), changed |-> <<>>]
